@@ -186,6 +186,25 @@ def scenarios(family, tier, mode="th"):
     return out
 
 
+def reader_scenarios(mode="th"):
+    """retrieve_object as a concurrent participant.  No property promises linearizable readers
+    (C07 lists the four mutating calls), so these scenarios are used for step-level conformance
+    with the implementation-shaped model and for C09's intermediate states only."""
+    out = []
+    for start, calls in [("p1a", [C("retrieve", "p1"), C("delete", "p1")]),
+                         ("p1a", [C("retrieve", "p1"), C("store", "p2", "a", "none")]),
+                         ("shared", [C("retrieve", "p1"), C("delete", "p2")]),
+                         ("empty", [C("retrieve", "p1"), C("store", "p1", "a", "none")]),
+                         ("unref", [C("retrieve", "p1"), C("tag", "p1", "a")]),
+                         ("p1a", [C("retrieve", "p1"), C("dii", c="a", val="badsum")])]:
+        name = "R/%s/%s" % (start, "|".join(cstr(c) for c in calls))
+        sc = conc.Scenario(name, OBJ_INST, OBJ_STARTS[start],
+                           {"t%d" % (i + 1): c for i, c in enumerate(calls)}, mode)
+        sc.family, sc.start, sc.pbound = "R", start, None
+        out.append(sc)
+    return out
+
+
 def _followups(sc):
     """Calls on every identifier involved, which must complete afterwards (C08)."""
     pids = sorted({c["pid"] for c in list(sc.threads.values()) + sc.setup if c["pid"] != "-"})
